@@ -4,7 +4,7 @@ From Coq Require Import String List NArith ZArith Bool.
 From J5V.lib Require Import Outcome.
 From J5V.model Require Import ReflectDesc ReflectSchema Reflect ReflectSpec.
 From J5V.gen Require ReflectGen.
-From J5V.proofs Require Import ReflectProofs ExportProofs ReflectInvProofs ReflectPathProofs ReflectFuelProofs.
+From J5V.proofs Require Import ReflectProofs ExportProofs ReflectInvProofs ReflectPathProofs ReflectFuelProofs ReflectFlattenProofs.
 From J5V.model Require Import Export.
 Import ListNotations.
 
@@ -65,6 +65,25 @@ Theorem C18_reflect_ok_guarantees : forall D, wf_keys D -> forall fs S,
   (forall k, lookup S k <> Some Placeholder).
 Proof. exact reflect_ok_guarantees. Qed.
 Print Assumptions C18_reflect_ok_guarantees.
+
+(* ---- "never recurses forever", codec side. ObjectSchema.ClientProperties expands flattened object
+   properties recursively (the stack overflow of defect #17 lived there). The flatten graph (an edge
+   from a linked object to the target of each of its flattened object properties) of EVERY successfully
+   reflected set is acyclic, with no hypothesis on the descriptors: checkFlattenCycle is a closed-set
+   search, and linking a root whose search answered "no cycle" cannot close a cycle. *)
+Theorem C18_flatten_graph_acyclic : forall D fs S, reflect D fs = Ok S -> acyclic S.
+Proof. exact reflect_acyclic. Qed.
+Print Assumptions C18_flatten_graph_acyclic.
+
+(* hence, when the split names are distinct (wf_keys: every flattened reference then leads to an
+   object), ClientProperties of every entry of a reflected set returns: it neither exhausts the fuel
+   |S|+1 (a path of an acyclic graph over the keys of S has at most |S| nodes) nor fails the type
+   assertion in ObjectField.Schema *)
+Theorem C18_client_properties_terminate : forall D fs S,
+  wf_keys D -> reflect D fs = Ok S ->
+  forall k r, lookup S k = Some (Linked r) -> exists out, client_props_of S r = Ok out.
+Proof. exact reflect_client_props_terminate. Qed.
+Print Assumptions C18_client_properties_terminate.
 
 (* ---- clause 2 of the property as a theorem, for every well-formed descriptor set whose field
    numbers are distinct per message (wf_paths; protoc guarantees it): after a successful reflection
